@@ -1246,6 +1246,47 @@ for big_i in range(1 if Q else 3):
                                data="unit spikes at the arrival times of the last grid node + 0.01 * rng.standard_normal (seed and tier)"), failing_input_found=True)
             break
 
+# (I8) several Python threads image different symmetric frames of the same size at once with the default weights (a thread pool
+#      over the frames of a scan): every image is bit for bit the image of its own frame computed alone.
+# (I9) a caller-supplied result buffer that is not zero (np.empty memory, a buffer re-used from the previous frame): same image
+from concurrent.futures import ThreadPoolExecutor as _TPE  # noqa: E402
+for big_i in range(1 if Q else 4):
+    nel_ = 8
+    xs_ = (np.arange(nel_) - (nel_ - 1) / 2) * 0.7e-3
+    probe_ = arim.Probe(arim.Points(np.column_stack([xs_, np.zeros(nel_), np.zeros(nel_)]), "Probe"), 5e6)
+    grid_ = arim.Grid(-8e-3, 8e-3, 0.0, 0.0, 6e-3, 18e-3, 0.1e-3)
+    time_ = arim.Time(0.0, 1 / 40e6, 500)
+    tx_, rx_ = arim.ut.hmc(nel_)
+    frames_ = [arim.Frame(rng.standard_normal((len(tx_), len(time_))), time_, tx_, rx_, probe_, None) for _ in range(3)]
+    seq_ = [np.asarray(tfm.contact_tfm(f_, grid_, 6300.0).res) for f_ in frames_]
+    order_ = [int(k_) for k_ in rng.integers(0, 3, 24)]
+    with _TPE(max_workers=4) as ex_:
+        futs_ = [ex_.submit(tfm.contact_tfm, frames_[k_], grid_, 6300.0) for k_ in order_]
+        conc_ = [np.asarray(f_.result().res) for f_ in futs_]
+    stats["identity_checks"] += 1
+    evaluations += len(order_)
+    chk.count(identity="concurrent_calls", capture="hmc")
+    wrong_ = [j_ for j_, (k_, im_) in enumerate(zip(order_, conc_)) if not np.array_equal(im_, seq_[k_])]
+    if wrong_:
+        chk.violation("I8:concurrent-calls", f"contact_tfm (default weights) called from 4 Python threads at once on frames of the same size: {len(wrong_)} of "
+                      f"{len(order_)} images differ from the image of their own frame computed alone",
+                      dict(numelements=nel_, capture="hmc", grid_points=int(np.prod(grid_.shape)), frame_of_first_wrong_image=order_[wrong_[0]],
+                           max_abs_difference=float(np.max(np.abs(conc_[wrong_[0]] - seq_[order_[wrong_[0]]]))),
+                           data="rng.standard_normal, seed and tier"), failing_input_found=True)
+    buf_ = np.full(int(np.prod(grid_.shape)), 7.25)
+    for k_, f_ in enumerate(frames_[:2]):
+        got_ = np.asarray(tfm.contact_tfm(f_, grid_, 6300.0, result=buf_).res)      # the buffer of the previous frame, re-used
+        stats["identity_checks"] += 1
+        evaluations += 1
+        chk.count(identity="result_buffer_reused")
+        if got_.shape != seq_[k_].shape or not np.array_equal(got_, seq_[k_]):
+            chk.violation("I9:result-buffer", "contact_tfm with a caller-supplied result buffer that is not zero (re-used from the previous image) "
+                          "differs from the image computed without it",
+                          dict(numelements=nel_, capture="hmc", buffer_before="7.25 everywhere" if k_ == 0 else "the previous image",
+                               max_abs_difference=float(np.max(np.abs(got_.reshape(seq_[k_].shape) - seq_[k_]))) if got_.size == seq_[k_].size else None),
+                          failing_input_found=True)
+            break
+
 chk.finish(
     evaluations=evaluations,
     distinct_nontrivial=len(nontrivial),
